@@ -21,7 +21,7 @@ RULE = ("GFF3 file databases with a depth-4 hierarchy, multi-parent and id-less 
         "fault cases: an update of n features whose one-shot source raises at position k for every k in 0..n, "
         "checklines 0 and 1; non-trivial history = contains an update after a delete or reopen; distinct by (base salt, word) "
         "and by (n, k, checklines)")
-REQUIRED = ["bulk deletes (hundreds of ids in one call)", "iteration order compared after a step", "live-handle comparisons", "history steps applied", "content dumps compared with the model", ".bak compared with pre-operation content",
+REQUIRED = ["spawn-history steps compared", "bulk deletes (hundreds of ids in one call)", "iteration order compared after a step", "live-handle comparisons", "history steps applied", "content dumps compared with the model", ".bak compared with pre-operation content",
             "auto-generated keys checked for freshness", "faults injected", "faults injected mid-import (beyond the peek window)",
             "reopen steps", "failpoints fired inside gffutils", "metamorphic comparisons (batched updates vs single import)",
             "metamorphic comparisons (delete undoes the last update)"]
@@ -200,6 +200,8 @@ def execute(ctx, case):
             metamorphic(ctx, case)
         elif case["kind"] == "bulk":
             bulk(ctx, case)
+        elif case["kind"] == "spawn_history":
+            spawn_history(ctx, case)
         else:
             fault(ctx, case)
     finally:
@@ -710,6 +712,60 @@ def bulk(ctx, case):
         cleanup(dbfn)
 
 
+def spawn_history(ctx, case):
+    """A multi-line feature (same ID, different coordinates) under merge_strategy='merge': the later segments are filed
+    under '<ID>_n'.  Deleting one of the features and continuing to merge must follow the model: a segment that comes
+    again is merged into the feature holding that segment, whichever of the group was deleted or re-added meanwhile."""
+    import gffutils
+
+    salt = case["salt"]
+    rng = random.Random(salt)
+    db, dbfn, model, text = build_base(ctx, salt)
+    trace = []
+    try:
+        nseg = rng.randrange(2, 4)
+        segs = [rec("CDS", 30000 + 500 * i + salt, 30100 + 500 * i + salt, [["ID", ["cds1"]], ["Parent", ["b"]], ["Note", ["seg%d" % i]]])
+                for i in range(nseg + 1)]
+        steps = [("update", segs, "the segments arrive")]
+        victim = ["cds1", "cds1_1", "cds1_%d" % nseg][case["delete_which"] % 3]
+        steps.append(("delete", [victim], "one of the group is deleted"))
+        if case["readd"]:
+            steps.append(("update", [rec("CDS", 40000, 40100, [["ID", ["cds1"]], ["Note", ["again"]]])], "the ID arrives again elsewhere"))
+        again = segs[1 + case["again_which"] % nseg]
+        steps.append(("update", [dict(again, attrs=[[k, list(v)] for k, v in again["attrs"]] + [["Alias", ["second-time"]]])],
+                      "a segment arrives a second time"))
+        for what, arg, why in steps:
+            trace.append([what, [line(r) for r in arg] if what == "update" else arg, why])
+            if what == "update":
+                try:
+                    model.update(arg, "merge")
+                except NotImplementedError:
+                    ctx.skip("spawn history: two candidates agree (not judged)")
+                    return
+                db.update("\n".join(line(r) for r in arg) + "\n", from_string=True, merge_strategy="merge", make_backup=False)
+            else:
+                if arg[0] not in model.feats:
+                    continue
+                db.delete(arg[0], make_backup=False)
+                model.delete(arg)
+            if case["reopen"]:
+                db.conn.close()
+                db = gffutils.FeatureDB(dbfn)
+            ctx.mon("spawn-history steps compared")
+            d = model.compare(dbdump.dump(dbfn))
+            if d:
+                ctx.violation(case, dict(d, trace=trace, note="multi-line feature under merge across a delete"))
+                return
+    except Exception as ex:
+        ctx.violation(case, {"why": "spawn history raised %r" % (ex,), "trace": trace})
+    finally:
+        try:
+            db.conn.close()
+        except Exception:
+            pass
+        cleanup(dbfn)
+
+
 def nontrivial(word):
     seen = False
     for op in word:
@@ -751,6 +807,17 @@ def run(ctx):
                 execute(ctx, case)
                 ctx.case(("fault", n, k, ck), k < n, sample=case, cls="fault position")
     run_failpoints(ctx)
+    j = 0
+    for dw in range(3):
+        for readd in (False, True):
+            for aw in range(2):
+                for reopen in (False, True):
+                    j += 1
+                    if not ctx.mine(j):
+                        continue
+                    case = {"kind": "spawn_history", "salt": (ctx.seed * 3 + j) % 50, "delete_which": dw, "readd": readd, "again_which": aw, "reopen": reopen}
+                    execute(ctx, case)
+                    ctx.case(("spawn_history", dw, readd, aw, reopen, case["salt"]), True, sample=case, cls="multi-line feature under merge across a delete")
     for j, form in enumerate(["ids", "features", "generator"]):
         if ctx.mine(j) or ctx.tier == "thorough":
             case = {"kind": "bulk", "n": rng.choice([1100, 1300]), "k": rng.choice([501, 640, 1001]), "seed": rng.randrange(10 ** 6), "form": form}
